@@ -26,7 +26,7 @@ I = A.Instr
 OUT = os.path.join(HERE, "C04")
 
 
-def func_import_module(names, globals_=(), memory=None, table=None):
+def func_import_module(names, globals_=(), memory=None, table=None, reexport=False, pad=0):
     """names: [(module, field)] of imported functions, all of type (i32, i64) -> i32"""
     m = A.Module()
     m.types = [A.FuncType([A.I32, A.I64], [A.I32]), A.FuncType([A.I32], [A.I32]), A.FuncType([], [A.I32])]
@@ -57,7 +57,13 @@ def func_import_module(names, globals_=(), memory=None, table=None):
         m.funcs.append(A.Function(1, [], [I("local.get", 0), I("i32.load8_u", 0, 0)]))
         m.exports.append(A.Export(b"ld", "func", n + len(m.funcs) - 1))
         m.datas = [A.DataSegment("active", b"names", I("i32.const", 3), 0)]
+    for _ in range(pad):        # unexported functions at the end of the index space (indices shifted by a translator stay in range)
+        m.funcs.append(A.Function(2, [], [I("i32.const", 77)]))
     m.elems = [A.ElemSegment(0, I("i32.const", 1), list(range(n - 1, -1, -1)))]
+    if reexport:            # every import entry exported as it is
+        for k in range(n):
+            m.exports.append(A.Export(b"imp%d" % k, "func", k))
+            calls.append((b"imp%d" % k, [("i32", 900 + k), ("i64", 5 - k)]))
     for k in range(n):
         calls.append((b"c%d" % k, [("i32", 11 + k)]))
     for k in range(n):
@@ -120,6 +126,15 @@ def main():
             "be an identifier (before /repo ed458af: `U32 1env__f(void*,U32);` did not compile) and every call must reach ITS host function")
     write("import-module-leading-digit.json", note, m, imp, calls)
     write(os.path.join("..", "C11", "import-module-leading-digit.json"), note, m, imp, calls)
+    # 4c. the SAME function imported several times: every import ENTRY owns a function index (imports in order, one index per entry)
+    names = [(b"env", b"a"), (b"env", b"a"), (b"env", b"b"), (b"env", b"a"), (b"host", b"a"), (b"env", b"c"), (b"env", b"b")]
+    m, imp, calls = func_import_module(names, reexport=True)
+    write("import-same-function-twice.json", "the same (module, field) function imported two and three times, interleaved with other imports "
+          "([env.a, env.a, env.b, env.a, host.a, env.c, env.b]): every import entry owns a function index; each index is called directly, through "
+          "the table (element segment in reverse order) and as an export; the host trace must name the designated host function", m, imp, calls)
+    m, imp, calls = func_import_module(names, reexport=True, pad=4)
+    write("import-same-function-twice-padded.json", "as import-same-function-twice.json, followed by four unexported functions: a translator "
+          "that gives repeated imports no index of their own still finds every index in range and calls the wrong functions", m, imp, calls)
     # 5. element segments whose positions are far from the function indices
     m = A.Module()
     m.types = [A.FuncType([], [A.I32]), A.FuncType([A.I32], [A.I32])]
